@@ -23,7 +23,42 @@ def ref_answer(K, t):
     return sorted(reference.sat(RK, ref_tree(t)))
 
 
+# a call of the implementation that does not come back: the unchanged LTL tableau needs up to a few seconds on the
+# deepest formulas of the scale streams; a call that needs more than CALL_TIMEOUT seconds is reported as `ERR Timeout`
+# (which no model answers) and after MAX_TIMEOUTS of them a worker process answers the rest of its share at once
+CALL_TIMEOUT = int(os.environ.get('VERIF_CALL_TIMEOUT', '90'))
+MAX_TIMEOUTS = 2
+_timeouts = [0]
+
+
+class _CallTimeout(BaseException):
+    pass
+
+
+def _alarm(signum, frame):
+    raise _CallTimeout()
+
+
 def impl_one(args):
+    import signal
+    import threading
+    if threading.current_thread() is not threading.main_thread():
+        return _impl_one(args)
+    if _timeouts[0] >= MAX_TIMEOUTS:
+        return 'ERR Timeout (not attempted: this worker already met %d calls that did not return)' % MAX_TIMEOUTS
+    old = signal.signal(signal.SIGALRM, _alarm)
+    signal.setitimer(signal.ITIMER_REAL, CALL_TIMEOUT)
+    try:
+        return _impl_one(args)
+    except _CallTimeout:
+        _timeouts[0] += 1
+        return 'ERR Timeout (no answer within %d s)' % CALL_TIMEOUT
+    finally:
+        signal.setitimer(signal.ITIMER_REAL, 0)
+        signal.signal(signal.SIGALRM, old)
+
+
+def _impl_one(args):
     logic, succ, labs, tree, entry = args
     L = lang(logic)
     K = KS(succ, labs).to_impl()
